@@ -76,6 +76,12 @@ bytesize_contract!(contract_bytesize_l4, 4);
 bytesize_contract!(contract_bytesize_l5, 5);
 bytesize_contract!(contract_bytesize_l6, 6);
 utf8_contract!(contract_utf8_l1, 1);
+pub(crate) fn contract_utf8_l1_pub(val: u64) -> Result<heapless::Vec<u8, 7>, RangeError> {
+    contract_utf8_l1(val)
+}
+pub(crate) const fn contract_bytesize_l1_pub(val: usize) -> usize {
+    contract_bytesize_l1(val)
+}
 utf8_contract!(contract_utf8_l2, 2);
 utf8_contract!(contract_utf8_l3, 3);
 utf8_contract!(contract_utf8_l4, 4);
